@@ -101,7 +101,7 @@ StateLabels(tag, D2, dl, il, tgn, tge, idle, sane, det, taint) ==
         cellnodes == {n \in tgn : n[3] # "" /\ n[4] # ObjKey}
         stale == {n \in calc : dl[n] # Den(D2, n)}
     IN
-      Lbl(held = alive, "C13.NoResidue")
+      Lbl(held = alive /\ \A n \in cellnodes : NodeExists(D2, n), "C13.NoResidue")
       \cup Lbl(\A n \in stale \ taint :
                   ~PrintT(<<"INFO", tag, "held", n, "value", dl[n], "expected", Den(D2, n)>>),
                "C02.NoStale")
@@ -134,21 +134,28 @@ CallLabels(tag, DD, n, res, pre, dl, fx, maxdepth, taint) ==
         \* a DeepReferenceError is history dependent by design: it is legitimate
         \* exactly when the chain of executing formulas reached the limit
         deepOK == maxdepth > 0 /\ MaxDepth(fx) >= maxdepth + 1
+        \* elements the execution log names that do not exist under DD (a changed
+        \* tree may execute members the definitions no longer give the space)
+        ghosts == {m \in Enters(fx) : ~NodeExists(DD, m)}
+        Ent    == Enters(fx) \ ghosts
     IN
+      Lbl(ghosts = {} \/ ~PrintT(<<"INFO", tag, "executed elements that do not exist", ghosts>>),
+          "C01.Transparent")
+      \cup
       Lbl(IF res = ErrDeep THEN deepOK
           ELSE (res = exp \/ n \in taint
                 \/ ~PrintT(<<"INFO", tag, "call", n, "returned", res, "expected", exp>>)),
           "C01.Transparent")
       \cup Lbl(res = ErrDeep \/ res = exp \/ n \notin taint, "KF:C01.caught-failure")
-      \cup Lbl(\A m \in Enters(fx) : IsCachedNode(DD, m) => m \notin DOMAIN pre, "C01.ComputedOnce")
-      \cup Lbl(\A m \in Enters(fx) : IsCachedNode(DD, m) =>
+      \cup Lbl(\A m \in Ent : IsCachedNode(DD, m) => m \notin DOMAIN pre, "C01.ComputedOnce")
+      \cup Lbl(\A m \in Ent : IsCachedNode(DD, m) =>
                   Cardinality({j \in ExitIdx(fx) : fx[j][2] = m /\ fx[j][3] # NoneV}) <= 1, "C01.ComputedOnceInCall")
       \cup Lbl((cachedT /\ ~IsErr(res)) => (n \in DOMAIN dl /\ dl[n] = res), "C01.SameElement")
       \cup Lbl((~cachedT) => n \in Enters(fx), "C09.UncachedReexecuted")
       \cup Lbl(IsErr(res) => (Unwound(fx) \cap DOMAIN dl = {}), "C05.FailedHoldNothing")
       \cup Lbl(\A j \in ExitIdx(fx) :
                   LET m == fx[j][2] IN
-                  (IsCachedNode(DD, m) /\ m \notin Unwound(fx) /\ fx[j][3] # NoneV)
+                  (m \notin ghosts /\ IsCachedNode(DD, m) /\ m \notin Unwound(fx) /\ fx[j][3] # NoneV)
                       => (m \in DOMAIN dl /\ dl[m] = fx[j][3]), "C05.CompletedKept")
       \cup Lbl(DOMAIN pre \subseteq DOMAIN dl, "C06.CallDiscardsNothing")
       \cup Lbl(\A m \in DOMAIN pre \cap DOMAIN dl : dl[m] = pre[m], "C06.CallChangesNothing")
